@@ -261,6 +261,7 @@ ASSEMBLY_CASES = OD([
     ('fan3/shared-node-constrained', ([[0, 1, 2], [0, 2, 3], [0, 3, 4]], 5, 2, [(0, 1), (2, 0), (2, 1)])),
     ('unordered3/first-and-last-dof', ([[3, 0, 4], [1, 4, 0], [2, 1, 0]], 5, 2, [(0, 0), (4, 1)])),
     ('scalar-field', ([[0, 1, 2], [2, 1, 3]], 4, 1, [(1, 0)])),
+    ('tri6-pair/mid-edge-and-vertex-constrained', ([[0, 1, 2, 3, 4, 5], [2, 1, 6, 4, 7, 8]], 9, 2, [(4, 0), (4, 1), (1, 1), (8, 0)])),
     ('all-but-one-constrained', ([[0, 1, 2], [2, 1, 3]], 4, 2, [(0, 0), (0, 1), (1, 0), (1, 1), (2, 0), (3, 0), (3, 1)])),
 ])
 
@@ -272,7 +273,7 @@ def _assembler(S):
     Hessian of the total energy in the unknowns (create_field is linear in Uu: C14)."""
     from optimism import SparseMatrixAssembler as SMA, FunctionSpace
     S.function('SparseMatrixAssembler.assemble_sparse_stiffness_matrix', SMA.assemble_sparse_stiffness_matrix, 'P')
-    S.assume('assembler clauses: symbolic values on %d fixed topologies / constraint patterns (not symbolic mesh sizes: those are C14\'s index-map contracts)' % len(ASSEMBLY_CASES))
+    S.assume('assembler clauses: symbolic values on %d fixed topologies / constraint patterns, 3- and 6-node elements (not symbolic mesh sizes: those are C14\'s index-map contracts)' % len(ASSEMBLY_CASES))
     old = SMA.coo_matrix
     SMA.coo_matrix = _CooSumDuplicates
     try:
